@@ -123,6 +123,12 @@ class C20Session(Session):
         extra = [k for k in dfl if k not in M.D and not sm.is_alias(k)]
         if extra:
             raise Violation("defaults", f"unexpected default leaves {extra[:3]}", **sig)
+        disp = {k: sm.norm(v) for k, v in self._settings().display.as_dict(flatten=True, separator="_").items()
+                if not k.startswith("style_")}
+        for k, want in M.display.items():
+            if disp.get(k, "<missing>") != want:
+                raise Violation("defaults", f"defaults.display.{k} = {disp.get(k)!r}, model {want!r} "
+                                f"({what} {op['op']}/{op.get('notation')})", leaf="display." + k, **sig)
         # 3. resolution, with and without show() keywords
         probe = dict((int(k), v) for k, v in (op.get("probe_kw") or {}).items())
         targets = list(enumerate(self.world.objs)) + [(-1, self.markers)]
@@ -270,6 +276,21 @@ class C20Session(Session):
         else:
             raise HarnessError(notation)
 
+    def _write_display(self, items, notation):
+        import magpylib as magpy
+
+        if notation == "update":
+            magpy.defaults.display.update(**{leaf: copy.deepcopy(v) for leaf, v in items})
+        elif notation == "attr":
+            for leaf, v in items:
+                tgt = magpy.defaults.display
+                parts = leaf.split("_")
+                for p in parts[:-1]:
+                    tgt = getattr(tgt, p)
+                setattr(tgt, parts[-1], copy.deepcopy(v))
+        else:
+            raise HarnessError(notation)
+
     def _guard(self, fn):
         """run a library call; -> 'ok' | 'raised:<Type>'"""
         try:
@@ -296,6 +317,8 @@ class C20Session(Session):
                 out = self._guard(lambda: self._write_default(op["fam"], items, op["notation"]))
             elif op["op"] == "new_obj":
                 out = self._guard(lambda: self._construct(op["cls"], items, op["notation"]))
+            elif op["op"] == "disp_set":
+                out = self._guard(lambda: self._write_display(items, op["notation"]))
             else:
                 continue
             self.stats["variants"] += 1
@@ -391,10 +414,16 @@ class C20Session(Session):
                 for leaf, v in op["items"]:
                     M.set_default(op["fam"], leaf, v)
                 self.probe("default_written." + ("base" if op["fam"] == "base" else "family"))
+        elif k == "disp_set":
+            out = self._guard(lambda: self._write_display(op["items"], op["notation"]))
+            if out == "ok":
+                for leaf, v in op["items"]:
+                    M.display[leaf] = sm.norm(v)
+                self.probe("display_setting_written")
         elif k == "reset":
             import magpylib as magpy
 
-            dirty = M.D != sm.load_frozen_defaults()
+            dirty = M.D != sm.load_frozen_defaults() or M.display != sm.load_frozen_display()
             out = self._guard(lambda: magpy.defaults.reset())
             M.reset_defaults()
             if dirty:
@@ -462,7 +491,7 @@ class C20Session(Session):
         st = self._state()
         self.log.add("op", self.step, k, op.get("notation"), out, digest(canon(st))[:16])
         for leaf, _v in op.get("items", []) or []:
-            self.transition(k, op.get("notation"), op.get("fam"), sm.kind_of(leaf), out)
+            self.transition(k, op.get("notation"), op.get("fam"), sm.kind_of(leaf) if k != "disp_set" else leaf, out)
         if not op.get("items"):
             self.transition(k, None, None, None, out)
         self._check_all(op)
@@ -548,7 +577,7 @@ class Sim:
             "n_obj": rng.randint(2, 5),
             "classes": [c for c in OBJ_CLASSES if rng.random() < 0.5] or ["Cuboid"],
             "ops": [o for o in ["obj_set", "obj_set", "def_set", "def_set", "reset", "copy", "new_obj",
-                                "children_styles"] if rng.random() < 0.75] or ["obj_set"],
+                                "children_styles", "disp_set"] if rng.random() < 0.75] or ["obj_set"],
             "obj_notations": [n for n in OBJ_NOTATIONS if rng.random() < 0.7] or ["magic_update"],
             "def_notations": [n for n in DEF_NOTATIONS if rng.random() < 0.7] or ["fam_update"],
             "invalid": rng.random() < 0.7,
@@ -666,6 +695,13 @@ class Sim:
             op = {"op": "def_set", "fam": fam, "notation": rng.choice(cfg["def_notations"]), "items": items}
             if cfg["invalid"]:
                 op["invalid"] = self._invalid(rng, items, self._leaves(fl))
+        elif kind == "disp_set":
+            leaf = rng.choice(sorted(sm.DISPLAY_VALID))
+            op = {"op": "disp_set", "notation": rng.choice(["update", "attr"]),
+                  "items": [[leaf, rng.choice(sm.DISPLAY_VALID[leaf])]]}
+            if cfg["invalid"] and leaf in sm.DISPLAY_INVALID:
+                op["invalid"] = [{"kind": "bad_value", "items": [[leaf, rng.choice(sm.DISPLAY_INVALID[leaf])]],
+                                  "leafkind": "display"}]
         elif kind == "reset":
             op = {"op": "reset"}
         elif kind == "copy":
